@@ -122,6 +122,8 @@ type netMember struct {
 	evDelay   int // blocks of delay before this node's event provider shows a transmit
 	lag       uint64
 	accepted  map[int]bool // report ids this instance has accepted (since its last restart)
+	everAcc   map[int]bool // report ids ever handed to ShouldAccept on this member (libocr persists accepted reports
+	// across plugin restarts and keeps asking ShouldTransmit for them)
 }
 
 type netEvents struct {
@@ -241,7 +243,7 @@ func runNetwork(t *testing.T, r *Rng, em *Emitter, roundEm func(JRound, JRoundIm
 	perm := r.Perm(n)
 	crashers := map[int]bool{}
 	for i := 0; i < n; i++ {
-		members[i] = &netMember{id: i, accepted: map[int]bool{}, evDelay: r.Range(0, 3), lag: uint64(r.Intn(2))}
+		members[i] = &netMember{id: i, accepted: map[int]bool{}, everAcc: map[int]bool{}, evDelay: r.Range(0, 3), lag: uint64(r.Intn(2))}
 	}
 	for k := 0; k < opts.byz; k++ {
 		members[perm[k]].byzantine = true
@@ -379,6 +381,7 @@ func runNetwork(t *testing.T, r *Rng, em *Emitter, roundEm func(JRound, JRoundIm
 				m := members[p.node]
 				ok, _ := m.node.Plugin.ShouldAcceptAttestedReport(context.Background(), seq, ocr3types.ReportWithInfo[pluginInfo]{Report: reportBytes[p.report]})
 				m.accepted[p.report] = true
+				m.everAcc[p.report] = true
 				trace.Queries = append(trace.Queries, JNetQuery{Round: round, Node: p.node, Report: p.report, IsAccept: true, Accept: ok})
 				em.Hit("late-accept")
 			} else {
@@ -391,8 +394,8 @@ func runNetwork(t *testing.T, r *Rng, em *Emitter, roundEm func(JRound, JRoundIm
 		up := honestUp()
 		// what is in flight where, right before the observations are built
 		for _, m := range up {
-			ids := make([]int, 0, len(m.accepted))
-			for id := range m.accepted {
+			ids := make([]int, 0, len(m.everAcc))
+			for id := range m.everAcc {
 				ids = append(ids, id)
 			}
 			sort.Ints(ids)
@@ -431,7 +434,7 @@ func runNetwork(t *testing.T, r *Rng, em *Emitter, roundEm func(JRound, JRoundIm
 				continue
 			}
 			var b []byte
-			kind := r.Intn(5)
+			kind := r.Intn(6)
 			em.Hit(fmt.Sprintf("net-byz-%d", kind))
 			switch {
 			case kind == 0 && len(honestObs) > 0: // replay an honest observation
@@ -460,6 +463,14 @@ func runNetwork(t *testing.T, r *Rng, em *Emitter, roundEm func(JRound, JRoundIm
 						GasAllocated: 77, PerformData: []byte{0xba, 0xd0}, FastGasWei: big.NewInt(1), LinkNative: big.NewInt(1)})
 				}
 				b = must(o.Encode())
+			case kind == 5 && len(honestObs) > 0: // UniqueID-collision partners (int64 wrap of gas) of what honest members send
+				var o ocr2keepersv3.AutomationObservation
+				if gojson.Unmarshal(honestObs[r.Intn(len(honestObs))], &o) == nil {
+					for i := range o.Performable {
+						o.Performable[i].GasAllocated = -o.Performable[i].GasAllocated // 2^64 - g: same UniqueID bytes
+					}
+					b = must(o.Encode())
+				}
 			case kind == 3:
 				b = r.Bytes(r.Range(0, 30))
 			default:
@@ -482,6 +493,10 @@ func runNetwork(t *testing.T, r *Rng, em *Emitter, roundEm func(JRound, JRoundIm
 			shuf[i] = aos[k]
 		}
 		aos = shuf
+		if r.Chance(50) {
+			// adversarial delivery order: Byzantine observations first
+			sort.SliceStable(aos, func(i, j int) bool { return members[aos[i].Observer].byzantine && !members[aos[j].Observer].byzantine })
+		}
 		validator := up[0].node.Plugin
 		var rawsK [][]byte
 		var oraclesK []int
@@ -557,6 +572,7 @@ func runNetwork(t *testing.T, r *Rng, em *Emitter, roundEm func(JRound, JRoundIm
 					}
 					ok, _ := m.node.Plugin.ShouldAcceptAttestedReport(context.Background(), seq, rp.ReportWithInfo)
 					m.accepted[id] = true
+					m.everAcc[id] = true
 					trace.Queries = append(trace.Queries, JNetQuery{Round: round, Node: m.id, Report: id, IsAccept: true, Accept: ok})
 				}
 			}
@@ -566,8 +582,8 @@ func runNetwork(t *testing.T, r *Rng, em *Emitter, roundEm func(JRound, JRoundIm
 
 		// --- transmit decisions: every member is asked about every report it has accepted, at the same instant
 		for _, m := range up {
-			ids := make([]int, 0, len(m.accepted))
-			for id := range m.accepted {
+			ids := make([]int, 0, len(m.everAcc))
+			for id := range m.everAcc {
 				ids = append(ids, id)
 			}
 			sort.Ints(ids)
@@ -607,6 +623,92 @@ func runNetwork(t *testing.T, r *Rng, em *Emitter, roundEm func(JRound, JRoundIm
 	return trace, impl
 }
 
+// runScript drives ONE real member through a hand-written accept / restart / transmit sequence and wraps it into a
+// trace (the other members only appear as observers that vouched for the results).
+func runScript(t *testing.T, r *Rng, variant int) (JNetTrace, JNetImpl) {
+	n, f := 4, 1
+	digest := genHash(r)
+	uid := genUpkeepID(r, false)
+	mk := func(block uint64) ocr2keepers.CheckResult {
+		res := genResult(r, uid, block)
+		return res
+	}
+	lo, hi := mk(90), mk(100)
+	trace := JNetTrace{N: n, F: f, Honest: []int{0, 1, 2, 3}, Correct: []int{0, 1, 2}, Restarts: map[string][]int{"3": {2}}}
+	for _, res := range []ocr2keepers.CheckResult{lo, hi} {
+		trace.Pipeline = append(trace.Pipeline, netPipelineEntry{Node: 0, Res: toJCR(res)})
+	}
+	vouch := func(res ocr2keepers.CheckResult) []JNetObs {
+		var out []JNetObs
+		for o := 0; o < 3; o++ {
+			out = append(out, JNetObs{Oracle: o, Valid: true, Perf: []JCR{toJCR(res)}})
+		}
+		return out
+	}
+	// round 0 agrees on the older check block, round 1 on the newer one (the first report's acceptance is delayed)
+	trace.Rounds = []JNetRound{
+		{Seq: 1, Obs: vouch(lo), Agreed: []JCR{toJCR(lo)}, Reports: []int{0}, OutcomeOK: true},
+		{Seq: 2, Obs: vouch(hi), Agreed: []JCR{toJCR(hi)}, Reports: []int{1}, OutcomeOK: true},
+		{Seq: 3, OutcomeOK: false}, {Seq: 4, OutcomeOK: false},
+	}
+	trace.Reports = []JNetReport{{ID: 0, Round: 0, Upkeeps: []JCR{toJCR(lo)}}, {ID: 1, Round: 1, Upkeeps: []JCR{toJCR(hi)}}}
+	node := NewNode(t, NodeOpts{N: n, F: f, Digest: digest, OracleID: 3})
+	time.Sleep(1500 * time.Millisecond)
+	rep := func(id int) ocr3types.ReportWithInfo[pluginInfo] {
+		res := lo
+		if id == 1 {
+			res = hi
+		}
+		b := must(node.Enc.Encode(res))
+		node.Enc.Take()
+		return ocr3types.ReportWithInfo[pluginInfo]{Report: b}
+	}
+	accept := func(round, id int) {
+		ok, _ := node.Plugin.ShouldAcceptAttestedReport(context.Background(), 1, rep(id))
+		trace.Queries = append(trace.Queries, JNetQuery{Round: round, Node: 3, Report: id, IsAccept: true, Accept: ok})
+	}
+	ask := func(round, id int, pre bool) {
+		ok, _ := node.Plugin.ShouldTransmitAcceptedReport(context.Background(), 1, rep(id))
+		trace.Queries = append(trace.Queries, JNetQuery{Round: round, Node: 3, Report: id, Transmit: ok, Pre: pre})
+	}
+	restart := func() {
+		node.Close()
+		time.Sleep(11 * time.Second)
+		node = NewNode(t, NodeOpts{N: n, F: f, Digest: digest, OracleID: 3})
+		time.Sleep(1500 * time.Millisecond)
+	}
+	switch variant {
+	case 0: // newer report accepted, restart, the delayed older report is accepted afterwards; libocr still asks about both
+		accept(1, 1)
+		ask(1, 1, false)
+		restart() // round 2
+		accept(2, 0)
+		ask(2, 0, false)
+		ask(2, 1, false)
+	case 1: // both accepted in order, then restart: nothing may be offered until accepted again
+		accept(0, 0)
+		accept(1, 1)
+		ask(1, 0, false)
+		ask(1, 1, false)
+		restart()
+		ask(2, 0, false)
+		ask(2, 1, false)
+		accept(3, 1)
+		ask(3, 0, false)
+		ask(3, 1, false)
+	case 2: // older accepted after newer without restart: the awaited block must not move backwards
+		trace.Restarts = map[string][]int{}
+		trace.Correct = []int{0, 1, 2, 3}
+		accept(1, 1)
+		accept(2, 0)
+		ask(2, 0, false)
+		ask(2, 1, false)
+	}
+	node.Close()
+	time.Sleep(11 * time.Second)
+	return trace, JNetImpl{FirstReport: map[string]int{}, Eligible: map[string]int{}}
+}
+
 func TestC09(t *testing.T) {
 	em := NewEmitter(t, "C09")
 	defer em.Close()
@@ -618,6 +720,12 @@ func TestC09(t *testing.T) {
 			em.Emit("replay", map[string]any{"kind": "trace", "seed": os, "trace": tr}, impl)
 		})
 		return
+	}
+	for v := 0; v < 3; v++ {
+		synctest.Test(t, func(t *testing.T) {
+			tr, impl := runScript(t, NewRng(uint64(4242+v)), v)
+			em.Emit("edge", map[string]any{"kind": "trace", "seed": v, "trace": tr}, impl)
+		})
 	}
 	r := NewRng(seed() + 9000)
 	runs := tierN(24, 500)
